@@ -315,6 +315,55 @@ def onescount8(ex, fr, st, args, ins):
     return acc
 
 
+def _bits_fn(kind, w):
+    def h(ex, fr, st, args, ins):
+        x = force(args[0])
+        if isinstance(x, int):
+            x &= (1 << w) - 1
+            if kind == 'ones':
+                return bin(x).count('1')
+            if kind == 'len':
+                return x.bit_length()
+            if kind == 'tz':
+                return w if x == 0 else (x & -x).bit_length() - 1
+            if kind == 'lz':
+                return w - x.bit_length()
+        t = tobv(x, w) if not isinstance(x, GSum) or x.w == w else x.bv()
+        if kind == 'ones':
+            if isinstance(x, GSum):
+                sh = x.binary_shape()
+                if sh is not None:
+                    r = GSum(64, 0, {})
+                    for k, g in sh.items():
+                        r = gs_from(gs_add(r, gs_indicator(g, 64, 1)), 64)
+                    return r.const_or_self()
+            acc = None
+            for k in range(w):
+                b = z3.ZeroExt(63, z3.Extract(k, k, t))
+                acc = b if acc is None else acc + b
+            return acc
+        raise Unsupported('math/bits.%s on a symbolic value' % kind)
+    return h
+
+
+def _binary_uint(w, big):
+    def h(ex, fr, st, args, ins):
+        sl = args[-1]
+        cells = ex.slice_cells(st, sl)
+        nb = w // 8
+        if len(cells) < nb:
+            ex.oblige('bounds', st, True, 'index out of range [%d] with length %d' % (nb - 1, len(cells)), ins.get('pos', ''))
+            raise PathDead()
+        cs = cells[:nb] if big else list(reversed(cells[:nb]))
+        acc = 0
+        for c in cs:
+            c = force(c)
+            cw = int_convert(c, 8, False, w, False)
+            acc = int_binop('+', int_binop('<<', acc, 8, w, False) if not isinstance(acc, int) or acc else 0, cw, w, False)
+        return acc
+    return h
+
+
 def nop(ex, fr, st, args, ins):
     return None
 
@@ -355,8 +404,18 @@ MATH = {
     'math.IsNaN': m_isnan, 'math.Sqrt': m_sqrt, 'math.Abs': m_abs, 'math.Erfc': uf1('erfc'), 'math.Erf': uf1('erf'),
     'math.Exp': uf1('exp'), 'math.Log': m_log, 'math.Pow': m_pow, 'math.Min': m_min, 'math.Max': m_max,
     'math.Ceil': m_ceil, 'math.Floor': m_floor, 'math.Sincos': m_sincos, 'math/cmplx.Abs': m_cabs,
-    'math/bits.OnesCount8': onescount8,
+    'math/bits.OnesCount8': onescount8, 'math/bits.OnesCount16': _bits_fn('ones', 16), 'math/bits.OnesCount32': _bits_fn('ones', 32),
+    'math/bits.OnesCount64': _bits_fn('ones', 64), 'math/bits.OnesCount': _bits_fn('ones', 64),
+    'math/bits.Len': _bits_fn('len', 64), 'math/bits.Len64': _bits_fn('len', 64), 'math/bits.Len32': _bits_fn('len', 32),
+    'math/bits.Len16': _bits_fn('len', 16), 'math/bits.Len8': _bits_fn('len', 8),
+    'math/bits.TrailingZeros': _bits_fn('tz', 64), 'math/bits.TrailingZeros64': _bits_fn('tz', 64), 'math/bits.TrailingZeros32': _bits_fn('tz', 32),
+    'math/bits.LeadingZeros': _bits_fn('lz', 64), 'math/bits.LeadingZeros64': _bits_fn('lz', 64), 'math/bits.LeadingZeros32': _bits_fn('lz', 32),
+    '(encoding/binary.bigEndian).Uint16': _binary_uint(16, True), '(encoding/binary.bigEndian).Uint32': _binary_uint(32, True),
+    '(encoding/binary.bigEndian).Uint64': _binary_uint(64, True), '(encoding/binary.littleEndian).Uint16': _binary_uint(16, False),
+    '(encoding/binary.littleEndian).Uint32': _binary_uint(32, False), '(encoding/binary.littleEndian).Uint64': _binary_uint(64, False),
     RP + '.igamc': igamc_uf, RP + '.Igamc': igamc_uf,
+    '(*sync.Mutex).Lock': nop, '(*sync.Mutex).Unlock': nop, '(*sync.RWMutex).Lock': nop, '(*sync.RWMutex).Unlock': nop,
+    '(*sync.RWMutex).RLock': nop, '(*sync.RWMutex).RUnlock': nop,
     'fmt.Println': nop, 'fmt.Printf': nop, 'log.Printf': nop, 'log.Println': nop, 'fmt.Print': nop,
     'errors.New': errors_new, 'fmt.Errorf': fmt_errorf, 'fmt.Sprintf': fmt_sprintf,
     '#opaque.error.Error': err_error,
